@@ -218,8 +218,8 @@ CLAIMED = {
               "fault-free result, nothing but *.rtdc~ may appear, inputs must be byte-identical. quick samples fault points "
               "(all open/close/rename/unlink points, the tail, an even subsample); thorough enumerates all points x 4 kinds "
               "per sampled workload plus crash-restart-crash sequences."),
-        note=("Trusted: the h5py/pathlib/os call boundary as the granularity of interruption (torn writes inside HDF5 and "
-              "power loss are outside the property's fault model); the structural HDF5 digest as equality of results; "
+        note=("Trusted: the h5py/pathlib/os call boundary as the granularity of interruption (power loss is outside the property's "
+              "fault model; a torn flush is modelled at the close of temporary files only); the structural HDF5 digest as equality of results; "
               "inputs are sampled (seeded), crash points per sampled workload are enumerated."),
     ),
 }
